@@ -708,6 +708,12 @@ var statelessStructs = map[string]string{
 	"gofakes3.withCORS":           "CORS wrapper",
 }
 
+// servingTimeFields: fields of the stateless layers that are legitimately assigned while serving (reviewed).
+var servingTimeFields = map[string]string{
+	"s3afero.metaStore.modTimeRes": "the measured mod-time resolution of the filesystem, a constant of the environment computed lazily once",
+	"gofakes3.GoFakeS3.requestID":  "request counter (sync/atomic; L5)",
+}
+
 var syncMapMutators = map[string]bool{"Store": true, "Delete": true, "LoadOrStore": true, "LoadAndDelete": true, "Swap": true, "CompareAndSwap": true, "CompareAndDelete": true, "Clear": true}
 
 // rule0210 — no serving-time copy of the store's state in process memory.
@@ -753,7 +759,42 @@ func rule0210(r *core.Run, prop string) {
 				what+" in "+owner+" while serving: a remembered copy of the store's state that later operations (or a restart) do not keep in step")
 		})
 	}
-	r.Held("R02.10", key("repo", "container mutations enumerated"), "", sprintf("%d map / sync.Map mutations examined", n))
+	// the same for plain fields: a stateless layer's struct gets its fields in construction; a field
+	// assigned while serving is remembered state (a "last read object", a cached listing)
+	nf := 0
+	for _, fn := range r.P.RepoFuncs() {
+		f := fn
+		if r.P.PkgShort(f) == "cmd" {
+			continue
+		}
+		core.Instrs(f, func(in ssa.Instruction) {
+			st, ok := in.(*ssa.Store)
+			if !ok {
+				return
+			}
+			fa, ok := st.Addr.(*ssa.FieldAddr)
+			if !ok {
+				return
+			}
+			fld := r.P.FieldName(fa)
+			i := strings.LastIndex(fld, ".")
+			if i < 0 {
+				return
+			}
+			why, stateless := statelessStructs[fld[:i]]
+			if !stateless || servingTimeFields[fld] != "" {
+				return
+			}
+			nf++
+			if baseRoot(fa.X) != nil {
+				return // a struct under construction in this very function
+			}
+			okCtx := isConstruction(r, f) || f.Name() == "init"
+			r.Check(okCtx, "R02.10", key(fname(r, f), "serving-time field of a stateless layer", fld), pos(r, in), "construction only",
+				"the field "+fld+" ("+why+") is assigned while serving: state kept in process memory that later operations (a multi-delete, a restart) do not keep in step with the store")
+		})
+	}
+	r.Held("R02.10", key("repo", "container mutations enumerated"), "", sprintf("%d map / sync.Map mutations and %d field stores of stateless layers examined", n, nf))
 	if n < 10 {
 		r.Unresolved("R02.10: only %d map mutations found in the repository (expected the stores' own)", n)
 	}
